@@ -2,6 +2,7 @@ package gen
 
 import (
 	"fmt"
+	"strings"
 
 	"verifharness/lang"
 )
@@ -16,6 +17,9 @@ func (g *G) templateStmt() *lang.Node {
 	n := func(s string) string { return fmt.Sprintf("%s%d", s, id) }
 	if g.o.StringHeavy && g.chance(700, "tplStr") {
 		return g.stringTemplate(id, n)
+	}
+	if g.chance(220, "tplSlot") {
+		return g.slotReuseTemplate(id, n)
 	}
 	switch g.weighted("template", 6, 6, 5, 5, 4, 3, 4, 3) {
 	case 0:
@@ -245,13 +249,14 @@ func (g *G) stringTemplate(id int, n func(string) string) *lang.Node {
 		if g.o.NoFormat || !g.builtinFree("format") {
 			return g.defineStmt()
 		}
-		w := []int{1, 8, 16, 30, 33, 60, 65, 99, 101, 200, 1001}[g.draw(11, "fmtW")]
+		w := []int{1, 8, 16, 30, 31, 32, 33, 34, 60, 63, 64, 65, 66, 98, 99, 100, 101, 102, 200, 999, 1000, 1001}[g.draw(22, "fmtW")]
 		g.declare(&vinfo{name: s, t: TStr})
-		f := []string{"%%%dd", "%%-%ds|", "%%0%dd"}[g.draw(3, "fmtWF")]
+		// left-justified directives write their padding last
+		f := []string{"%%%dd", "%%-%ds|", "%%0%dd", "%%-%dd", "%%-%ds", "ab%%-%dd", "%%-%ds", "%%%ds", "%%-%dx"}[g.draw(9, "fmtWF")]
 		arg := lang.Int(int64(g.draw(100, "fmtWA")))
 		var a *lang.Node = arg
-		if f == "%%-%ds|" {
-			a = lang.Str("ab")
+		if strings.HasSuffix(f, "s|") || strings.HasSuffix(f, "ds") {
+			a = lang.Str([]string{"ab", "", "12345678"}[g.draw(3, "fmtWS")])
 		}
 		return lang.Define(s, lang.Call(lang.Ident("format"), lang.Str(fmtSprintf(f, w)), a))
 	case 5:
@@ -277,3 +282,120 @@ func (g *G) stringTemplate(id int, n func(string) string) *lang.Node {
 }
 
 func fmtSprintf(f string, w int) string { return fmt.Sprintf(f, w) }
+
+// slotReuseTemplate: a function body in which a closure captures a
+// block-scoped (or loop-iteration, or earlier-call) variable and, after that
+// scope has ended, other constructs reuse the same stack slots (self-referencing
+// local functions, for-in iterators, plain definitions, nested calls, if/for
+// init variables); the closure is called afterwards. Every variable must keep
+// its own cell.
+func (g *G) slotReuseTemplate(id int, n func(string) string) *lang.Node {
+	g.feat("tpl:slot-reuse")
+	I, S := lang.Ident, lang.Int
+	get, acc, fs := n("get"), n("acc"), n("fs")
+	var body []*lang.Node
+	body = append(body, lang.Define(get, lang.Undef()), lang.Define(acc, S(0)), lang.Define(fs, lang.Array()))
+	for i := g.draw(3, "slotPad"); i > 0; i-- {
+		body = append(body, lang.Define(n(fmt.Sprintf("pad%d_", i)), S(int64(i))))
+	}
+	e1, e2 := g.expr(TInt, 1), g.expr(TInt, 1)
+	x, y := n("x"), n("y")
+	switch g.draw(4, "slotCapt") {
+	case 0: // block-scoped variables captured, then the block ends
+		g.feat("tpl:slot-reuse:block")
+		blk := []*lang.Node{lang.Define(x, e1), lang.Define(y, e2),
+			lang.Assign("=", I(get), lang.Func(nil, false, lang.Block(lang.Return(lang.Array(I(x), I(y))))))}
+		if g.chance(500, "slotUpd") {
+			blk = append(blk, lang.Assign("+=", I(x), S(1)))
+		}
+		body = append(body, lang.If(nil, lang.Bool(true), lang.Block(blk...), nil))
+	case 1: // one closure per loop iteration over the iteration's variable
+		g.feat("tpl:slot-reuse:loop")
+		i := n("i")
+		loop := []*lang.Node{lang.Define(x, lang.Binary("*", I(i), S(int64(2+g.draw(9, "slotMul")))))}
+		if g.chance(500, "slotSelf") {
+			// a self-referencing function per iteration
+			cnt := n("cnt")
+			loop = append(loop, lang.Define(cnt, lang.Func([]string{n("k")}, false, lang.Block(
+				lang.If(nil, lang.Binary("==", I(n("k")), S(0)), lang.Block(lang.Return(I(x))), nil),
+				lang.Return(lang.Binary("+", lang.Call(I(cnt), lang.Binary("-", I(n("k")), S(1))), S(1)))))),
+				lang.Assign("=", I(fs), lang.Call(I("append"), I(fs), I(cnt))))
+		} else {
+			loop = append(loop, lang.Assign("=", I(fs), lang.Call(I("append"), I(fs),
+				lang.Func([]string{n("k")}, false, lang.Block(lang.Return(lang.Binary("+", I(x), I(n("k")))))))))
+		}
+		body = append(body, lang.For(lang.Define(i, S(0)), lang.Binary("<", I(i), S(int64(2+g.draw(3, "slotIter")))), lang.IncDec("++", I(i)), lang.Block(loop...)))
+		body = append(body, lang.Assign("=", I(get), lang.Func(nil, false, lang.Block(lang.Return(S(101))))))
+	case 2: // a closure over a local of an earlier call (same stack position later)
+		g.feat("tpl:slot-reuse:earlier-call")
+		mk := n("mkc")
+		body = append(body, lang.Define(mk, lang.Func(nil, false, lang.Block(lang.Define(x, e1), lang.Define(y, e2),
+			lang.Return(lang.Func(nil, false, lang.Block(lang.Assign("+=", I(x), S(1)), lang.Return(lang.Array(I(x), I(y))))))))),
+			lang.Assign("=", I(get), lang.Call(I(mk))))
+	default: // for-in key/value captured, then the loop ends
+		g.feat("tpl:slot-reuse:for-in")
+		k, v := n("fk"), n("fv")
+		body = append(body, lang.ForIn(k, v, lang.Array(e1, e2, S(7)), lang.Block(
+			lang.Assign("=", I(fs), lang.Call(I("append"), I(fs), lang.Func([]string{n("k")}, false, lang.Block(lang.Return(lang.Array(I(k), I(v), I(n("k")))))))))),
+			lang.Assign("=", I(get), lang.Func(nil, false, lang.Block(lang.Return(S(102))))))
+	}
+	if !g.builtinFree("append") {
+		return g.defineStmt()
+	}
+	// constructs that reuse the freed slots
+	for r := 1 + g.draw(3, "slotReusers"); r > 0; r-- {
+		g.nameN++
+		m := func(s string) string { return fmt.Sprintf("%s%d_%d", s, id, g.nameN) }
+		switch g.draw(9, "slotReuser") {
+		case 0:
+			f := m("fact")
+			body = append(body, lang.Define(f, lang.Func([]string{m("q")}, false, lang.Block(
+				lang.Return(lang.Cond(lang.Binary("<=", I(m("q")), S(1)), S(1), lang.Binary("*", I(m("q")), lang.Call(I(f), lang.Binary("-", I(m("q")), S(1))))))))),
+				lang.Assign("+=", I(acc), lang.Call(I(f), S(int64(1+g.draw(4, "slotFact"))))))
+		case 1:
+			var it *lang.Node
+			switch g.draw(3, "slotIterKind") {
+			case 0:
+				it = lang.Array(S(7), S(8), S(9))
+			case 1:
+				it = lang.Str("ab")
+			default:
+				it = lang.Map([]string{"k"}, []*lang.Node{S(5)})
+			}
+			body = append(body, lang.ForIn(m("a"), m("b"), it, lang.Block(lang.Assign("+=", I(acc), S(1)))))
+		case 2:
+			body = append(body, lang.Define(m("p"), S(1)), lang.Define(m("q"), S(2)), lang.Assign("+=", I(acc), lang.Binary("+", I(m("p")), I(m("q")))))
+		case 3:
+			body = append(body, lang.If(nil, lang.Bool(true), lang.Block(lang.Define(m("z"), S(5)), lang.Define(m("w"), lang.Binary("+", I(m("z")), S(1))),
+				lang.Assign("+=", I(acc), I(m("w")))), nil))
+		case 4:
+			body = append(body, lang.For(lang.Define(m("j"), S(0)), lang.Binary("<", I(m("j")), S(2)), lang.IncDec("++", I(m("j"))),
+				lang.Block(lang.Define(m("t"), I(m("j"))), lang.Assign("+=", I(acc), I(m("t"))))))
+		case 5:
+			body = append(body, lang.Assign("+=", I(acc), lang.Call(lang.Func(nil, false, lang.Block(lang.Define(m("u"), S(3)),
+				lang.Define(m("v"), lang.Binary("*", I(m("u")), S(2))), lang.Return(I(m("v"))))))))
+		case 6:
+			body = append(body, lang.If(lang.Define(m("t"), S(4)), lang.Binary(">", I(m("t")), S(2)), lang.Block(lang.Assign("+=", I(acc), I(m("t")))), nil))
+		case 7:
+			body = append(body, lang.Define(m("nv"), S(9)), lang.Define(m("h"), lang.Func(nil, false, lang.Block(lang.Assign("+=", I(m("nv")), S(1)), lang.Return(I(m("nv")))))),
+				lang.Assign("+=", I(acc), lang.Call(I(m("h")))))
+		default:
+			// a function literal referring to itself through its own name, not called recursively
+			f := m("selfref")
+			body = append(body, lang.Define(f, lang.Func(nil, false, lang.Block(lang.Return(lang.Call(I("is_function"), I(f)))))),
+				lang.Assign("=", I(fs), lang.Call(I("append"), I(fs), lang.Func([]string{m("k")}, false, lang.Block(lang.Return(lang.Call(I(f))))))))
+		}
+	}
+	if !g.builtinFree("is_function") {
+		return g.defineStmt()
+	}
+	// observe: the captured values after the slots were reused
+	res := n("obs")
+	fn := n("fnc")
+	body = append(body, lang.Define(res, lang.Array(lang.Call(I(get)), I(acc))),
+		lang.ForIn("", fn, I(fs), lang.Block(lang.Assign("=", I(res), lang.Call(I("append"), I(res), lang.Call(I(fn), S(2)))))),
+		lang.Return(I(res)))
+	name := n("slot")
+	g.declare(&vinfo{name: name, t: TArr, elem: TAny})
+	return lang.Define(name, lang.Call(lang.Func(nil, false, lang.Block(body...))))
+}
